@@ -384,12 +384,24 @@ def build_func(space, sd, fd, geo=None):
         region = {}
         if pflat is not None and np.any(pflat == 0):
             region['prior'] = 'zeros'
-        return leaf(oc(space, prior), rc(geo, pflat), region=region)
+        extra = {}
+        if prior is not None:
+            extra = {'params': {'prior': prior},
+                     'remake': lambda P: oc(space, P['prior'])}
+        return leaf(oc(space, prior), rc(geo, pflat), region=region,
+                    extra=extra)
     if cls == 'IndicatorBox':
         lo, lof = _bound(space, fd.get('lower'))
         hi, hif = _bound(space, fd.get('upper'))
+        params = {k: v for k, v in (('lower', lo), ('upper', hi))
+                  if v is not None and not isinstance(v, float)}
+        extra = {}
+        if params:
+            extra = {'params': params,
+                     'remake': lambda P: S.IndicatorBox(
+                         space, P.get('lower', lo), P.get('upper', hi))}
         return leaf(S.IndicatorBox(space, lo, hi),
-                    R.IndicatorBox(geo, lof, hif))
+                    R.IndicatorBox(geo, lof, hif), extra=extra)
     if cls == 'IndicatorNonnegativity':
         return leaf(S.IndicatorNonnegativity(space),
                     R.IndicatorBox(geo, 0.0, None))
@@ -426,7 +438,10 @@ def build_func(space, sd, fd, geo=None):
         vec_, vflat = _opt_vec(space, fd['vector'])
         return leaf(S.QuadraticForm(vector=vec_),
                     R.QuadraticForm(geo, None, vflat, 0.0),
-                    region={'quad': 'vec'})
+                    region={'quad': 'vec'},
+                    extra={'params': {'vector': vec_},
+                           'remake': lambda P: S.QuadraticForm(
+                               vector=P['vector'])})
     if cls == 'QuadraticForm':
         od = fd.get('op')
         vec, vflat = _opt_vec(space, fd.get('vector'))
@@ -454,7 +469,13 @@ def build_func(space, sd, fd, geo=None):
         else:
             region['quad'] = 'vec'
         f = S.QuadraticForm(operator=op, vector=vec, constant=c)
-        return leaf(f, R.QuadraticForm(geo, A, vflat, c), region=region)
+        extra = {}
+        if vec is not None:
+            extra = {'params': {'vector': vec},
+                     'remake': lambda P: S.QuadraticForm(
+                         operator=op, vector=P['vector'], constant=c)}
+        return leaf(f, R.QuadraticForm(geo, A, vflat, c), region=region,
+                    extra=extra)
     if cls == 'GroupL1Norm':
         p = float(fd['p'])
         return leaf(S.GroupL1Norm(space, p),
@@ -517,7 +538,8 @@ def build_func(space, sd, fd, geo=None):
         f = c.f * v
         ref = None if rv(c) is None else R.RightVec(rv(c), vf)
         return node(f, ref, [c], lambda x: c.value(v * x),
-                    extra={'v': v, 'vf': vf})
+                    extra={'v': v, 'vf': vf, 'params': {'vector': v},
+                           'remake': lambda P: c.f * P['vector']})
     if cls == 'scalarsum':
         c = child()
         k = float(fd['c'])
@@ -531,7 +553,9 @@ def build_func(space, sd, fd, geo=None):
         f = c.f.translated(t)
         ref = None if rv(c) is None else R.Translation(rv(c), tf)
         return node(f, ref, [c], lambda x: c.value(x - t),
-                    extra={'t': t, 'tf': tf})
+                    extra={'t': t, 'tf': tf, 'params': {'translation': t},
+                           'remake': lambda P: c.f.translated(
+                               P['translation'])})
     if cls == 'quadperturb':
         c = child()
         a = float(fd.get('a', 0.0))
@@ -545,7 +569,13 @@ def build_func(space, sd, fd, geo=None):
             if u is not None:
                 v = v + x.inner(u)
             return v
-        return node(f, ref, [c], asm)
+        extra = {}
+        if u is not None:
+            extra = {'params': {'linear_term': u},
+                     'remake': lambda P: S.FunctionalQuadraticPerturb(
+                         c.f, quadratic_coeff=a,
+                         linear_term=P['linear_term'], constant=k)}
+        return node(f, ref, [c], asm, extra=extra)
     if cls == 'sum':
         c1, c2 = child('f'), child('g')
         f = c1.f + c2.f
@@ -601,7 +631,10 @@ def build_func(space, sd, fd, geo=None):
             ref = R.QuadPerturb(rv(c), 0.0, -sgf, const)
             ref.name = 'BregmanDistance'
         return node(f, ref, [c],
-                    lambda x: c.value(x) - c.value(p) - sg.inner(x - p))
+                    lambda x: c.value(x) - c.value(p) - sg.inner(x - p),
+                    extra={'params': {'point': p, 'subgrad': sg},
+                           'remake': lambda P: S.BregmanDistance(
+                               c.f, P['point'], P['subgrad'])})
     if cls == 'product':
         c1, c2 = child('f'), child('g')
         f = S.FunctionalProduct(c1.f, c2.f)
